@@ -185,7 +185,8 @@ def property_from_ref_contract(kind):
                props=["C20", "C08"]),
         Clause("default-revalidated", default_revalidated,
                statement="unresolvable reference => PropertyError; otherwise the sibling default is converted against the "
-                         "referenced property (None stays None, invalid => that PropertyError is returned)", props=["C13", "C20"]),
+                         "referenced property (None stays None -- so a wrapper without a default behaves like the bare reference --, "
+                         "invalid => that PropertyError is returned)", props=["C13", "C20", "C17"]),
         Clause("shares-registered-class", shares_class,
                statement="result == registered property with name/required/python_name/default replaced; every other field "
                          "(class_info, values, inner properties...) is the registered object's", props=["C20"]),
@@ -195,7 +196,7 @@ def property_from_ref_contract(kind):
         Clause("error-names-the-using-item", error_data, statement="a PropertyError carries the reference or its wrapper as data",
                props=["C20", "C07"]),
     ]
-    case = Case(f"existing={kind}", make, clauses, raises=(), props=["C20", "C13", "C08"])
+    case = Case(f"existing={kind}", make, clauses, raises=(), props=["C20", "C13", "C08", "C17"])
     return FnContract(f"{P}:_property_from_ref", [case])
 
 
